@@ -557,6 +557,11 @@ func (x *exec) judgeRead(net string, st *Step, d delivered, fc frameClass, exp i
 		return false
 	case expError:
 		c.Check()
+		if rs.err == nil && mustTimeout && !fc.waitsForMore() && fc.label == "authentic" {
+			x.violateRaw("C35", "read-ends-at-deadline", "C35/read-completed-after-its-deadline/"+fam, replay,
+				"the link delivered a %s frame more slowly than the read deadline of %v allows (%s), yet ReadMessage returned a %T after %v", fam, timeout, d.what, rs.m, rs.elapsed)
+			return true
+		}
 		if rs.err == nil {
 			x.violateRaw("C35", "malformed-frame-rejected", "C35/"+fc.label+"-frame-accepted/"+fam, replay,
 				"ReadMessage accepted a %s frame that is %s (%s) and returned a %T", fam, fc.label, d.what, rs.m)
